@@ -403,7 +403,7 @@ def obligations(tier, seed):
                 if q and n == 4 and cname not in ("free", "eof"):
                     continue
                 pre = [f"n == {n}", f"start == {start}"] + ([cpre.format(v="b0")] if n > 2 else [])
-                if n == 5 and (cname != "link" or start not in (0, 4)):
+                if n == 5 and (cname != "link" or start != 0):
                     continue                      # 5-sector tables: word 0 a link, chain entered at the first / last sector (wall-time budget)
                 if n == 5:
                     for c1name, c1pre in AK_CLASSES:
@@ -444,9 +444,11 @@ def obligations(tier, seed):
                            "indices (0..6), probed entry", f"{cnt} indices into a table of {size} entries"))
     nb = 3 if q else 4
     for start in range(nb):
-        if nb == 4 and start not in (0, 3):
+        if nb == 4 and start != 0:
             continue
         for cname, cpre in AK_CLASSES:
+            if nb == 4 and cname not in ("link", "res"):
+                continue                              # 4-sector byte streams: word 0 a link or a directory marker (wall-time budget)
             for c1name, c1pre in (AK_CLASSES if nb == 4 else [(None, None)]):          # n=4: split by the class of word 1 as well (one obligation did not finish otherwise)
                 obs.append(_ob(f"C07.bytes/n={nb}/start={start}/w0={cname}" + (f"/w1={c1name}" if c1name else ""), "h_bytes",
                                [f"n == {nb}", f"start == {start}", cpre.format(v="b0")] + ([c1pre.format(v="b1")] if c1name else []), T,
